@@ -19,7 +19,9 @@ resolve_record_value answer `None` (re-resolve) and resolve_value retries a boun
 read; only the reviewed functions call read_sectors_sync. Not decided: which value a racing read returns.
 """
 DECIDED = ["pin -> load sector -> pread under the pin -> identity check before use", "reader count protocol (retired bit, CAS, Drop)",
-           "retirement waits for readers", "publish sector before clearing the value", "stale reads re-resolve, bounded"]
+           "retirement waits for readers", "publish sector before clearing the value", "stale reads re-resolve, bounded",
+           "a range scan re-resolves a stale handle by the entry's own key and from the entry's own slot",
+           'acquire_extent tests the retired bit on the value each compare-exchange attempt is based on; no refusal after an installed change of the reader count']
 NOT_DECIDED = ["which generation's value a racing read returns (schedule-level)"]
 ASSUMPTIONS = ["ExtentReadGuard borrows the record's extent_state (lifetime witness in the thorough tier / C20)"]
 
